@@ -14,7 +14,7 @@ RULE = ("rewrite-rule closure from base programs: state = program text, transiti
         "letter case (mnemonic, directive, register, symbol, radix prefix, hex digits, ^C/^R), whitespace (tab, doubled blanks, blank "
         "line, trailing and full-line comment), number radix (octal, n., 0x, 0o, 0b, ^X, ^O, ^B, ^D), grouping (<> () ^/ /), register "
         "spelling (rN %N sp/pc), mnemonic synonyms and pseudo-instruction expansions, explicit '.word' vs implicit list, (rN) vs @rN. "
-        "From each generated base program (covering the statement kinds of C02/C04/C05/C06): every single rule at every site (deviation "
+        "From each of 27 single-file and 3 multi-file generated base programs (covering the statement kinds of C02/C04/C05/C06): every single rule at every site (deviation "
         "1), every pair of sites (deviation 2, thorough), every subset of rule families applied everywhere; from each of the 21 practice "
         "programs: each conservative rule family applied everywhere, all pairs, all together. Oracle: identical status, base, bytes and "
         "error kinds as the base program (warnings ignored); base programs are anchored by C01-C06. Non-trivial = distinct rewritten text")
@@ -70,6 +70,12 @@ BASE_PROGRAMS += [
     "t:\t.word 1, ., .+2\n\t.word 2, <.-t>, t\n\t.dw 3, .\n",
     "\t.byte 1, 2\n\t.db 3, 4\n\t.word 100, 200\n\t.dw 300\n\tbhis .+2\n\tblo .+2\n\tclrd ac0\n\ttstd (r1)\n\tldd (r2), ac1\n\tstd ac1, (r3)\n",
     "\tmov #<2+3>*4, r0\n\tmov <2+3>*4, r0\n\tclr <4>(r2)\n\tbr <.+4>\n\tnop\n\tsob r0, <.-2>\n\t.blkb <1+2>\n\t.even\n",
+]
+# multi-file base programs: (context files assembled before it, the file that is rewritten)
+MULTI = [
+    ([("ctx.mac", "exit::\tnop\nlimit == 5\ntab::\t.word 1\n")], "\tjmp exit\n\tmov #limit, r0\n\tmov tab, r1\nexit:\thalt\nlimit = 7\ntab:\t.word 2\n"),
+    ([("ctx.mac", "entry::\tnop\n\tjsr pc, helper\n")], "helper::\tmov #entry, r0\n\tbr helper\n\t.word entry, helper\n"),
+    ([("ctx.mac", "\t.extern all\nalpha:\tnop\nbeta = 12\n")], "\tmov alpha, r0\n\tmov #beta, r1\n\t.word alpha+beta\n"),
 ]
 TREE = {"f5.bin": b"\x01\x02\x03\x04\x05", "inc2.mac": ".byte 7\n.byte 10\n.byte 11\n"}
 
@@ -344,7 +350,7 @@ FAMILIES = ["case-mnemonic", "case-directive", "case-register", "case-symbol", "
 
 
 def cases(tier):
-    for i in range(len(BASE_PROGRAMS)):
+    for i in range(len(BASE_PROGRAMS) + len(MULTI)):
         yield {"k": "single", "prog": i}
         yield {"k": "subsets", "prog": i}
         if tier == "thorough":
@@ -358,7 +364,8 @@ def outcome_key(o):
 
 
 def compare(r, base_out, text, key, case, fam, tree=TREE, files=None):
-    o = driver.assemble(files or [("p.mac", text)], tree=tree)
+    ctx = [tuple(f) for f in case.get("ctx", [])]
+    o = driver.assemble(files or (ctx + [("p.mac", text)]), tree=tree)
     r.states += 1
     r.trans += 1
     same = outcome_key(o) == outcome_key(base_out)
@@ -390,30 +397,34 @@ def apply_everywhere(toks, fams, variant_pick=0):
 def check(case, r, tier):
     k = case["k"]
     if k == "text":
-        base = driver.assemble([("p.mac", case["base"])], tree=TREE)
+        base = driver.assemble([tuple(f) for f in case.get("ctx", [])] + [("p.mac", case["base"])], tree=TREE)
         compare(r, base, case["text"], None, case, case["fam"])
         return
     if k in ("single", "pairs", "subsets"):
-        text = BASE_PROGRAMS[case["prog"]]
+        if case["prog"] < len(BASE_PROGRAMS):
+            ctx, text = [], BASE_PROGRAMS[case["prog"]]
+        else:
+            ctx, text = MULTI[case["prog"] - len(BASE_PROGRAMS)]
+        ctxj = [list(f) for f in ctx]
         toks = lex(text)
         assert render(toks) == text
-        base = driver.assemble([("p.mac", text)], tree=TREE)
+        base = driver.assemble(list(ctx) + [("p.mac", text)], tree=TREE)
         r.ran(base.cls(), key=("base", case["prog"]))
         if base.status != "ok":
-            r.violation("base-program:" + base.cls(), "a generated base program does not assemble", {"k": "text", "base": text, "text": text, "fam": "base"}, "ok", base.brief())
+            r.violation("base-program:" + base.cls(), "a generated base program does not assemble", {"k": "text", "base": text, "text": text, "fam": "base", "ctx": ctxj}, "ok", base.brief())
             return
         st = sites(toks)
         if k == "single":
             for site in st:
                 new = render(apply(toks, site))
-                compare(r, base, new, new, {"k": "text", "base": text, "text": new, "fam": site[0]}, site[0])
+                compare(r, base, new, new, {"k": "text", "base": text, "text": new, "fam": site[0], "ctx": ctxj}, site[0])
         elif k == "pairs":
             for a, b in itertools.combinations(st, 2):
                 if a[1] == b[1] or a[0] in ("pseudo", "group") or b[0] in ("pseudo", "group"):
                     continue
                 hi, lo = (a, b) if a[1] > b[1] else (b, a)
                 new = render(apply(apply(toks, hi), lo))
-                compare(r, base, new, new, {"k": "text", "base": text, "text": new, "fam": "%s+%s" % (lo[0], hi[0])}, "%s+%s" % (lo[0], hi[0]))
+                compare(r, base, new, new, {"k": "text", "base": text, "text": new, "fam": "%s+%s" % (lo[0], hi[0]), "ctx": ctxj}, "%s+%s" % (lo[0], hi[0]))
         else:
             fams = FAMILIES if tier == "thorough" else FAMILIES[:3] + ["case-symbol+case-radix", "radix", "ws+comment", "group", "register+synonym+legacy-deferred"]
             for mask in range(1, 1 << len(fams)):
@@ -422,7 +433,7 @@ def check(case, r, tier):
                     if mask >> b & 1:
                         chosen |= set(f.split("+"))
                 new = render(apply_everywhere(toks, chosen, variant_pick=mask))
-                compare(r, base, new, new, {"k": "text", "base": text, "text": new, "fam": "+".join(sorted(chosen))}, "+".join(sorted(chosen)))
+                compare(r, base, new, new, {"k": "text", "base": text, "text": new, "fam": "+".join(sorted(chosen)), "ctx": ctxj}, "+".join(sorted(chosen)))
         return
     if k == "practice":
         d = os.path.join(PRACTICE, case["name"])
